@@ -6,12 +6,12 @@
 (***************************************************************************)
 EXTENDS HpoCompare, TLC, Json
 
-CONSTANT Small      \* TRUE: a 36-element pool (quick tier), FALSE: 144
+CONSTANT Small      \* TRUE: a 72-element pool (quick tier), FALSE: 288
 
 VARIABLE c
 
 FullPool == {[Default EXCEPT !.extra = ex, !.pat = pt, !.flags = fl, !.gsel = g, !.osel = o, !.tshape = ts] :
-           ex \in {{}, {2}, {2, 9999999}}, pt \in {1, 3}, fl \in {<<FALSE, 0>>, <<TRUE, 118>>, <<FALSE, 2>>},
+           ex \in {{}, {2}, {2, 9999999}}, pt \in {1, 2, 3, 4}, fl \in {<<FALSE, 0>>, <<TRUE, 118>>, <<FALSE, 2>>},
            g \in {0, 2}, o \in {1, 2}, ts \in {"short", "colon"}}
 
 Pool == IF Small THEN {q \in FullPool : q.gsel = 0 /\ q.tshape = "short"} ELSE FullPool
